@@ -15,7 +15,7 @@ for line in open(os.path.join(ROOT, "properties.jsonl")):
 # id -> (technique, level text, level note, design ref)
 CLAIMED = {
     "C01": (
-        "proptest random search over a choice tape (structured command-tree generator + spec-derived argv generator), totality oracle under catch_unwind, shrinking",
+        "proptest random search over a choice tape (structured command-tree generator + spec-derived argv generator), totality oracle under catch_unwind, shrinking; thorough tier adds coverage-guided libFuzzer campaigns (cargo-fuzz) over the same decoder and oracle",
         "Hundreds of thousands (thorough: tens of millions) of generated command trees that pass clap's own configuration checks are "
         "parsed against argv built from their own spellings, structural tokens, raw bytes incl. invalid UTF-8, huge and repeated tokens; "
         "every panic outside the configuration assertions, every error that cannot be rendered or breaks the exit contract, and every "
@@ -62,7 +62,7 @@ CLAIMED = {
         "DESIGN.md section 4, C17",
     ),
     "C18": (
-        "proptest random search: totality over every cursor index, and a differential validity/completeness oracle against the built command's item set and the real parser, shrinking",
+        "proptest random search: totality over every cursor index, and a differential validity/completeness oracle against the built command's item set and the real parser, shrinking; thorough tier adds coverage-guided libFuzzer campaigns (cargo-fuzz) over the same decoder and oracle",
         "Part A calls the engine at every cursor index of argv built from generated trees (incl. hyphen-accepting args, unknown flags, "
         "non-UTF-8): only Ok or the plain 'no completion' error are allowed. Part B places the cursor where a new argument may start "
         "(after a subcommand path and complete tokens) with a word that is a prefix of a legal token: every option/subcommand candidate "
@@ -83,7 +83,7 @@ CLAIMED = {
         "DESIGN.md section 4, C19",
     ),
     "C20": (
-        "bounded-exhaustive enumeration + proptest random search, two-pointer content-preservation walk and width invariant as oracle, via guarded hook and public help path",
+        "bounded-exhaustive enumeration + proptest random search, two-pointer content-preservation walk and width invariant as oracle, via guarded hook and public help path; thorough tier adds coverage-guided libFuzzer campaigns (cargo-fuzz) over the same decoder and oracle",
         "All texts up to 7 letters (thorough 8) over {word, space, newline, wide, zero-width, SGR} x widths 0..6 x plain/styled, plus random "
         "texts up to 400 letters x widths 0..200/usize::MAX: the output must be the input with inter-word space runs replaced by newline + "
         "indent and nothing else changed, plain lines within the width unless single-word, escape sequences intact, display widths equal to "
@@ -200,7 +200,7 @@ CLAIMED = {
         "DESIGN.md section 4, C11",
     ),
     "C12": (
-        "proptest random search over generated command trees with the full help surface, no-panic / bounded-padding / section-membership / hidden-absence oracles, metamorphic level markers for help dispatch, shrinking (tape + serialised case)",
+        "proptest random search over generated command trees with the full help surface, no-panic / bounded-padding / section-membership / hidden-absence oracles, metamorphic level markers for help dispatch, shrinking (tape + serialised case); thorough tier adds coverage-guided libFuzzer campaigns (cargo-fuzz) over the same decoder and oracle",
         "Generated trees (all hide modes, short-only/Count flags, custom headings, next-line help, flatten, templates, possible values, "
         "defaults, env) are rendered short and long at every level and at three widths in 0..200, plus usage and the DisplayHelp error for "
         "--help/-h after every subcommand path. Violations: any panic, padding runs beyond a linear bound, a visible argument/subcommand "
@@ -211,7 +211,7 @@ CLAIMED = {
         "DESIGN.md section 4, C12",
     ),
     "C13": (
-        "bounded-exhaustive enumeration + proptest random search over a choice tape, byte-level reference oracle and short-iterator model",
+        "bounded-exhaustive enumeration + proptest random search over a choice tape, byte-level reference oracle and short-iterator model; thorough tier adds coverage-guided libFuzzer campaigns (cargo-fuzz) over the same decoder and oracle",
         "Every byte string up to length 6 (thorough 7) over a 12-byte boundary alphabet, plus random strings up to 64 bytes with random "
         "iterator-call interleavings, is lexed and compared method by method with one-line byte predicates, a long-flag re-assembly "
         "round trip and a lock-step model of the short-flag iterator. Exploration: exhaustive inside the bound, sampled beyond; no proof.",
@@ -219,7 +219,7 @@ CLAIMED = {
         "DESIGN.md section 4, C13",
     ),
     "C14": (
-        "bounded-exhaustive enumeration + proptest model-based (stateful) testing against naive byte-slice and Vec+index models, with shrinking",
+        "bounded-exhaustive enumeration + proptest model-based (stateful) testing against naive byte-slice and Vec+index models, with shrinking; thorough tier adds coverage-guided libFuzzer campaigns (cargo-fuzz) over the same decoder and oracle",
         "OsStr helpers are compared with naive byte-slice implementations for every haystack up to length 5 (thorough 6) over the boundary "
         "alphabet x 10 needles and for random longer inputs; the cursor is driven through random histories (two cursors, all seek origins, "
         "extreme offsets, inserts, reads past the end) in lock-step with a Vec+index model, after every step. Exploration with shrinking.",
